@@ -166,7 +166,7 @@ type History struct {
 func genHistory(seed int64, i int) *History {
 	r := fw.Rand(seed, "c11", i)
 	h := &History{Index: i}
-	h.Kind = []string{"passive", "passive", "retry", "retry-recover", "active", "limit", "limit"}[i%7]
+	h.Kind = []string{"passive", "passive", "retry", "retry-recover", "active", "limit", "limit", "passive-reload", "limit-multipeer"}[i%9]
 	h.D = 300 + r.Intn(7)*100
 	h.M = 1 + r.Intn(3)
 	h.T = 500 + r.Intn(8)*100
@@ -182,7 +182,7 @@ func run(c *fw.Ctx) {
 	hmods.Quiet(c.OutDir + "/caddyhome")
 	canary := oracle.StartCanary()
 	defer canary.Stop()
-	n := c.Pick(42, 420)
+	n := c.Pick(54, 540)
 	var mine []*History
 	for i := 0; i < n; i++ {
 		if c.Mine(i) {
@@ -209,6 +209,10 @@ func run(c *fw.Ctx) {
 					active(c, canary, h)
 				case "limit":
 					limit(c, canary, h)
+				case "passive-reload":
+					passiveReload(c, canary, h)
+				case "limit-multipeer":
+					limitMultiPeer(c, canary, h)
 				}
 			}(h)
 		}
@@ -617,5 +621,127 @@ func replay(c *fw.Ctx, raw json.RawMessage) {
 		active(c, canary, h)
 	case "limit":
 		limit(c, canary, h)
+	case "passive-reload":
+		passiveReload(c, canary, h)
+	case "limit-multipeer":
+		limitMultiPeer(c, canary, h)
 	}
+}
+
+// passiveReload: a failure is recorded, then the configuration is reloaded (a second handler for the same dial
+// addresses is provisioned, the first one is stopped) within fail_duration. Peer state is kept across reloads, so the
+// failure must still be forgotten after fail_duration and the upstream must return to rotation.
+func passiveReload(c *fw.Ctx, canary *oracle.Canary, h *History) {
+	A, err := newUpstream()
+	if err != nil {
+		c.Inconclusive("listen: " + err.Error())
+		return
+	}
+	B, _ := newUpstream()
+	defer A.down()
+	defer B.down()
+	A.down()
+	D := time.Duration(h.D) * time.Millisecond
+	slack := D/3 + 150*time.Millisecond
+	sel := nextTag("sel")
+	routes := proxyRoutes([]map[string]any{dial(A), dial(B)}, map[string]any{
+		"health_checks": map[string]any{"passive": map[string]any{"fail_duration": fmt.Sprintf("%dms", h.D), "max_fails": 1}}}, sel)
+	app1, err := drive.StartApp(routes, "5s")
+	if err != nil {
+		report(c, h, "config-rejected", err.Error(), routes)
+		return
+	}
+	at1, _, _ := connect(app1, A, B, nextTag("pr"), false, 5*time.Second)
+	if at1.outcome != "fail" {
+		app1.Stop()
+		report(c, h, "unexpected-outcome", "first attempt against the refusing upstream ended as "+at1.outcome, nil)
+		return
+	}
+	app2, err := drive.StartApp(routes, "5s")
+	if err != nil {
+		app1.Stop()
+		report(c, h, "config-rejected", err.Error(), routes)
+		return
+	}
+	defer app2.Stop()
+	app1.Stop() // the old configuration is unloaded while the failure is still remembered
+	at2, _, _ := connect(app2, A, B, nextTag("pr"), false, 5*time.Second)
+	if at2.outcome == "fail" && at2.b <= at1.a+D-slack {
+		report(c, h, "failure-lost-on-reload", "right after the reload the failing upstream was used again although its failure is still within fail_duration", nil)
+	}
+	time.Sleep(D + slack)
+	if st, ok := counters(A); ok && st.Fails != 0 {
+		if canary.MaxOversleep() > slack/2 {
+			c.Inconclusive("noisy scheduler")
+		} else {
+			report(c, h, "failure-never-forgotten-after-reload", fmt.Sprintf("a failure recorded before a configuration reload is still counted (fails=%d) after fail_duration + slack", st.Fails), nil)
+		}
+	}
+	at3, _, _ := connect(app2, A, B, nextTag("pr"), false, 5*time.Second)
+	if at3.outcome == "B" && canary.MaxOversleep() <= slack/2 {
+		report(c, h, "upstream-not-back-in-rotation", "after fail_duration + slack the upstream whose failure was recorded before the reload is still out of rotation", nil)
+	}
+	hmods.SelectLog(sel)
+	c.Case(fw.Hash("passive-reload", h.D, at2.outcome, at3.outcome), true, func() any {
+		return map[string]any{"history": h, "outcomes": at1.outcome[:1] + at2.outcome[:1] + at3.outcome[:1]}
+	})
+}
+
+// limitMultiPeer: an upstream with two dial addresses of which the second refuses. Every attempt dials the first
+// peer successfully and then fails; no connection stays open, so the peers' counters must stay at 0 and the upstream
+// must not be reported full; once the second peer accepts, a connection must be admitted and reach both peers.
+func limitMultiPeer(c *fw.Ctx, canary *oracle.Canary, h *History) {
+	A1, err := newUpstream()
+	if err != nil {
+		c.Inconclusive("listen: " + err.Error())
+		return
+	}
+	A2, _ := newUpstream()
+	B, _ := newUpstream()
+	defer A1.down()
+	defer A2.down()
+	defer B.down()
+	A2.down()
+	sel := nextTag("sel")
+	ua := map[string]any{"dial": []string{"tcp/" + A1.addr, "tcp/" + A2.addr}, "max_connections": h.Max}
+	routes := proxyRoutes([]map[string]any{ua, dial(B)}, nil, sel)
+	app, err := drive.StartApp(routes, "5s")
+	if err != nil {
+		report(c, h, "config-rejected", err.Error(), routes)
+		return
+	}
+	defer app.Stop()
+	outcomes := ""
+	for k := 0; k < h.Max+2; k++ {
+		at, _, _ := connect(app, A2, B, nextTag("mp"), false, 5*time.Second)
+		outcomes += at.outcome[:1]
+		if at.outcome == "B" {
+			report(c, h, "multi-peer-upstream-reported-full", fmt.Sprintf("after %d failed attempts (second peer refuses) with no connection open, the upstream (max_connections %d) was skipped as if it were full", k, h.Max), nil)
+			break
+		}
+		for _, u := range []*upstream{A1, A2} {
+			if st, ok := counters(u); ok && st.NumConns != 0 {
+				time.Sleep(30 * time.Millisecond)
+				if st2, _ := counters(u); st2.NumConns != 0 {
+					report(c, h, "connection-count-wrong", fmt.Sprintf("no proxied connection is open, yet peer %s counts %d connections after a partially failed dial", u.addr, st2.NumConns), nil)
+				}
+			}
+		}
+	}
+	if err := A2.upAgain(); err == nil {
+		tag := nextTag("mp")
+		at, cl, rec := connect(app, A2, B, tag, true, 5*time.Second)
+		outcomes += at.outcome[:1]
+		if at.outcome != "A" || !A1.waitHas(tag, 2*time.Second) {
+			report(c, h, "not-admitted-after-peer-recovered", fmt.Sprintf("both peers accept now and no connection is open, yet the connection ended as %q (first peer got it: %v)", at.outcome, A1.has(tag)), nil)
+		}
+		if cl != nil {
+			_ = cl.CloseWrite()
+			rec.WaitDone("span", 5*time.Second)
+			_ = cl.Close()
+			hmods.Untrack(tag)
+		}
+	}
+	hmods.SelectLog(sel)
+	c.Case(fw.Hash("limit-multipeer", h.Max, outcomes), true, func() any { return map[string]any{"history": h, "outcomes": outcomes} })
 }
